@@ -1135,16 +1135,21 @@ func (m *MapPollard) Ingest(delHashes []Hash, proof Proof) error {
 // This function is different from Ingest() in that it's not safe for concurrent access.
 func (m *MapPollard) ingest(delHashes []Hash, proof Proof) error {
 	hnp := toHashAndPos(proof.Targets, delHashes)
+
+	// Calculate the proof positions in the rows that the accumulator needs and
+	// translate them afterwards. Extra proof hashes at the end are not used.
+	proofPos, _ := ProofPositions(hnp.positions, m.NumLeaves, TreeRows(m.NumLeaves))
+	if len(proofPos) > len(proof.Proof) {
+		return fmt.Errorf("proof too short. Need %d hashes but have %d",
+			len(proofPos), len(proof.Proof))
+	}
 	if m.TotalRows != TreeRows(m.NumLeaves) {
 		hnp.positions = translatePositions(hnp.positions, TreeRows(m.NumLeaves), m.TotalRows)
 		sort.Sort(hnp)
+		proofPos = translatePositions(proofPos, TreeRows(m.NumLeaves), m.TotalRows)
 	}
 
-	// Calculate and ingest the proof.
-	proofPos, _ := ProofPositions(hnp.positions, m.NumLeaves, m.TotalRows)
-	if TreeRows(m.NumLeaves) != m.TotalRows && len(proofPos) != len(proof.Proof) {
-		proofPos = m.trimProofPos(proofPos, m.NumLeaves)
-	}
+	// Ingest the proof.
 	for i, pos := range proofPos {
 		_, found := m.Nodes.Get(pos)
 		if !found {
